@@ -127,7 +127,7 @@ def lcov (rs : List FileIn) : List LcovRec := rs.map fun r => lcovRec r.cov
 
 /-! ## covdir (covdir.rs, output.rs 184-239) -/
 
-structure CDStats where
+@[ext] structure CDStats where
   total : Nat
   covered : Nat
   missed : Nat
@@ -310,7 +310,7 @@ def classLines (k : CClass) : List (Nat × CLine) :=
 /-- `Package::get_lines` = `Vec<Class>::get_lines` of its single class -/
 def packageLines (k : CClass) : List (Nat × CLine) := extendMap [] (classLines k)
 
-structure CobStats where
+@[ext] structure CobStats where
   linesCovered : Nat
   linesValid : Nat
   branchesCovered : Nat
@@ -377,7 +377,7 @@ def cobertura (rs : List FileIn) : Run CobReport :=
 
 /-! ## html (html.rs) -/
 
-structure HStats where
+@[ext] structure HStats where
   totalLines : Nat
   coveredLines : Nat
   totalFuns : Nat
